@@ -138,6 +138,7 @@ def history(job):
   out['order'] = t['order']
   out['n_adm'] = t['n']
   out['margin'] = rec.get('margin')
+  out['model_comparable'] = bool(t['distinct_means'] and not t['table_exceptions'])
   out['wire'] = rec.get('wire')
   try:
     mm, par, frame, data = build(inst, resolved)
@@ -220,6 +221,16 @@ def run(out, tier, model_ok=True):
     inst = se.gen_instance(rng, tier, max_admitted=5, theme=rng.choice(['default', 'default', 'default', 'tfixed_budget', 'share_lo']))
     if rng.random() < 0.5:
       inst['params']['n_designs'] = rng.choice([2, 3, 5])
+    if rng.random() < 0.15 and len(inst['geos']) >= 2:
+      # a market reported twice under two IDs: perfectly correlated candidates make a search raise ValueError
+      src = rng.choice(inst['geos'])
+      inst['rows'] += [['twin', d, v] for g, d, v in inst['rows'] if g == src]
+      inst['geos'] = inst['geos'] + ['twin']
+      if inst['elig'] is not None and src in inst['elig']:
+        inst['elig']['twin'] = list(inst['elig'][src])
+      for k in ('treatment_geos_range', 'control_geos_range'):
+        if rng.random() < 0.7:
+          inst['params'].pop(k, None)
     ops = gen_ops(rng, min(5, len(inst['geos'])))
     extras = {}
     if rng.random() < 0.45:       # reconfiguration of the object between calls
@@ -283,7 +294,7 @@ def run(out, tier, model_ok=True):
         bad = True
         break
       ml = model_lines.get(h['iid'], {}).get(i)
-      if ml is not None and (h.get('margin') or math.inf) >= se.GUARD:
+      if ml is not None and h.get('model_comparable') and (h.get('margin') or math.inf) >= se.GUARD:
         ma = model_answer(ml, h['idx_ids'], h['order'])
         got = st['got']
         if ma[0] == 'classes':
